@@ -137,6 +137,22 @@ def long_no_transition(rng):
     return s
 
 
+def rate_boundary_scripts(rng, maxden):
+    """threshold num/den, window of den calls with exactly num failures: the failure rate EQUALS the threshold,
+    so the breaker must open. The pairs chosen are those where binary64 arithmetic is fragile
+    ((num/den)*den != num), i.e. where a float rewrite of the comparison would go wrong."""
+    out = []
+    fragile = [(n, d) for d in range(2, maxden + 1) for n in range(1, d) if (n / d) * d != n]
+    for (num, den) in fragile:
+        for tb in (0, 1):
+            s = cfg(tb, den, 10 ** 6, den, num, den, 0, 50, 1, 2, 30, 1, 0, den + 2)
+            fails = set(rng.sample(range(den), num))
+            for i in range(den):
+                s += seq_call(i, 2 if i in fails else 0, 0)
+            out.append(s)
+    return out
+
+
 def random_concurrent(rng, maxn=8, maxlen=40):
     n = rng.randint(2, maxn)
     s = random_cfg(rng, n)
